@@ -58,6 +58,8 @@ impl Type {
 }
 #[verifier::external_body] pub struct Item { _p: core::marker::PhantomData<()> }
 impl Item {
+    pub uninterp spec fn s_item_opaque(&self, ctx: &BindgenContext) -> bool;
+    #[verifier::external_body] pub fn is_opaque(&self, ctx: &BindgenContext, _e: &()) -> (r: bool) ensures r == self.s_item_opaque(ctx) { unimplemented!() }
     pub uninterp spec fn s_as_type(&self) -> Option<Type>;
     #[verifier::external_body] pub fn as_type(&self) -> (r: Option<&Type>)
         ensures r.is_some() == self.s_as_type().is_some(), r.is_some() ==> *r.unwrap() == self.s_as_type().unwrap() { unimplemented!() }
